@@ -40,8 +40,8 @@ func (w *Worker) globalPtr(s *State, x *ssa.Global) Ptr {
 	}
 	if _, ok := s.heap[id]; !ok {
 		s.heap[id] = zero(x.Type().(*types.Pointer).Elem())
-		switch x.String() {
-		case "io.EOF", "io.ErrUnexpectedEOF", "os.ErrNotExist":
+		// sentinel errors of library packages whose init is not executed: distinct opaque values
+		if x.Pkg != nil && !strings.HasPrefix(x.Pkg.Pkg.Path(), modPrefix) && types.Identical(x.Type().(*types.Pointer).Elem(), types.Universe.Lookup("error").Type()) {
 			s.heap[id] = Iface{t: opaqueErrType, v: Opaque{x.String()}}
 		}
 	}
@@ -1269,7 +1269,12 @@ func (w *Worker) invoke(s *State, f *Frame, fnv Value, args []Value, dst ssa.Val
 			throwRT("invalid memory address or nil pointer dereference (call of nil func)")
 		}
 		name := fn.fn.String()
-		if m, ok := redirects[name]; ok && w.eng.rtPkg != nil {
+		if rc, ok := s.ghost["redirect/"+name].(*Closure); ok && rc != nil {
+			// harness-registered model of an environment function (same signature)
+			s.job.stub("redirected:" + name)
+			fn = rc
+			name = rc.fn.String()
+		} else if m, ok := redirects[name]; ok && w.eng.rtPkg != nil {
 			mf := w.eng.rtPkg.Func(m)
 			if mf == nil {
 				unsupported("model %s missing", m)
